@@ -48,6 +48,8 @@ pub struct HistCfg {
     pub seed_growth: bool,
     /// every pool is an adaptive-fee pool (C14)
     pub all_adaptive: bool,
+    /// extended lifecycle operations: sentinel bounds, metadata, lock / transfer-locked, reset, reposition, bundles
+    pub lifecycle_ext: bool,
     pub spacings: Vec<u16>,
 }
 impl Default for HistCfg {
@@ -69,6 +71,7 @@ impl Default for HistCfg {
             allow_transfer_fee: false,
             seed_growth: false,
             all_adaptive: false,
+            lifecycle_ext: false,
             spacings: vec![1, 8, 64, 128, 256, 32896],
         }
     }
@@ -84,6 +87,8 @@ pub struct Hist {
     pub cfg: HistCfg,
     pub log: OpLog,
     pub scenario: Value,
+    /// (bundle mint, bundle token account, owner user index)
+    pub bundles: Vec<(Pubkey, Pubkey, usize)>,
 }
 
 fn usable(t: i32, s: u16) -> i32 {
@@ -190,7 +195,7 @@ impl Hist {
                 }
             }
         }
-        Hist { cfg: cfg.clone(), log: OpLog::default(), scenario: json!(desc) }
+        Hist { cfg: cfg.clone(), log: OpLog::default(), scenario: json!(desc), bundles: vec![] }
     }
 
     fn record(&mut self, obs: &Obs) {
@@ -270,7 +275,13 @@ impl Hist {
                 w.advance_clock(dt);
                 acc.count("clock_advance");
             });
-            pick!(cfg.w_lifecycle, { self.op_lifecycle(w, p, monitors, acc) });
+            pick!(cfg.w_lifecycle, {
+                if cfg.lifecycle_ext && w.r.gen() {
+                    self.op_lifecycle_ext(w, p, monitors, acc)
+                } else {
+                    self.op_lifecycle(w, p, monitors, acc)
+                }
+            });
             pick!(cfg.w_reward, { self.op_reward(w, p, monitors, acc) });
             pick!(cfg.w_setters, { self.op_setters(w, p, monitors, acc) });
             pick!(cfg.w_two_hop, { self.op_two_hop(w, monitors, acc) });
@@ -615,6 +626,293 @@ impl Hist {
             _ => {
                 self.op_open_and_fund(w, p, monitors, acc);
             }
+        }
+    }
+
+    /// Lock / transfer-locked / reset / reposition / bundles / sentinel bounds / metadata.
+    pub fn op_lifecycle_ext(&mut self, w: &mut World, p: usize, monitors: &mut [Box<dyn Monitor>], acc: &mut Acc) {
+        use solana_program::system_program;
+        let pool = w.pools[p].clone();
+        let st = w.pool_state(p);
+        let live = self.live_positions(w, p);
+        let s = pool.tick_spacing as i32;
+        match w.r.gen_range(0..16) {
+            0 | 1 => {
+                // open with a bound derived from the price (sentinels), incl. both sentinels and wrong sides
+                let u = w.r.gen_range(0..w.users.len());
+                let near = usable(st.tick_current_index, pool.tick_spacing);
+                let (lo, hi) = match w.r.gen_range(0..6) {
+                    0 | 1 => (i32::MIN, near + w.r.gen_range(1..40) * s),
+                    2 | 3 => (near - w.r.gen_range(1..40) * s, i32::MAX),
+                    4 => (i32::MIN, i32::MAX),
+                    _ => (i32::MIN, near - w.r.gen_range(0..5) * s),
+                };
+                let te: bool = w.r.gen();
+                let (ix, mut info) = w.open_position_ix(p, u, lo, hi, te);
+                let o = self.step(w, ix, monitors, acc);
+                if o.ok() {
+                    if let Some(pp) = w.bank.data(&info.position).and_then(codec::Position::decode) {
+                        info.lower = pp.tick_lower_index;
+                        info.upper = pp.tick_upper_index;
+                    }
+                    w.positions.push(info);
+                }
+            }
+            2 => {
+                // open with metadata (Metaplex CPI is a recording stub)
+                let u = w.r.gen_range(0..w.users.len());
+                let (lo, hi) = self.gen_range(w, p);
+                let owner = w.users[u].key;
+                let mint = w.new_key();
+                let (position, bump) = b::pda_position(mint);
+                let (meta, mbump) = b::pda_metadata(mint);
+                let ta = b::pda_associated_token(owner, mint, TOKEN).0;
+                let ix = b::OpenPositionWithMetadata {
+                    funder: ADMIN,
+                    owner,
+                    position,
+                    position_mint: mint,
+                    position_metadata_account: meta,
+                    position_token_account: ta,
+                    whirlpool: pool.key,
+                    token_program: TOKEN,
+                    system_program: system_program::ID,
+                    rent: RENT_ID,
+                    associated_token_program: ATA,
+                    metadata_program: b::METADATA_PROGRAM_ID,
+                    metadata_update_auth: b::NFT_UPDATE_AUTH,
+                }
+                .ix(b::OpenPositionWithMetadataBumps { position_bump: bump, metadata_bump: mbump }, lo, hi);
+                let o = self.step(w, ix, monitors, acc);
+                if o.ok() {
+                    w.positions.push(PosInfo { pool: p, position, mint, owner: u, token_account: ta, kind: PosKind::Plain, lower: lo, upper: hi, closed: false, locked: false });
+                }
+            }
+            3 | 4 if !live.is_empty() => {
+                // lock (only token-extension positions with liquidity can be locked)
+                let i = *rnd::pick(&mut w.r, &live);
+                let pi = w.positions[i].clone();
+                let ix = b::LockPosition {
+                    funder: ADMIN,
+                    position_authority: w.users[pi.owner].key,
+                    position: pi.position,
+                    position_mint: pi.mint,
+                    position_token_account: pi.token_account,
+                    lock_config: b::pda_lock_config(pi.position).0,
+                    whirlpool: pool.key,
+                    token_2022_program: TOKEN22,
+                    system_program: system_program::ID,
+                }
+                .ix(b::LockType::Permanent);
+                let o = self.step(w, ix, monitors, acc);
+                if o.ok() {
+                    w.positions[i].locked = true;
+                }
+            }
+            5 if !live.is_empty() => {
+                // transfer a locked position to another user
+                let locked: Vec<usize> = live.iter().copied().filter(|i| w.positions[*i].locked).collect();
+                let i = if !locked.is_empty() && rnd::chance(&mut w.r, 4, 5) { *rnd::pick(&mut w.r, &locked) } else { *rnd::pick(&mut w.r, &live) };
+                let pi = w.positions[i].clone();
+                if pi.kind != PosKind::TokenExt {
+                    return;
+                }
+                let to = (pi.owner + 1) % w.users.len();
+                let to_key = w.users[to].key;
+                let dest = w.create_token_account(pi.mint, to_key);
+                let ownerk = w.users[pi.owner].key;
+                let ix = b::TransferLockedPosition {
+                    position_authority: ownerk,
+                    receiver: ownerk,
+                    position: pi.position,
+                    position_mint: pi.mint,
+                    position_token_account: pi.token_account,
+                    destination_token_account: dest,
+                    lock_config: b::pda_lock_config(pi.position).0,
+                    token_2022_program: TOKEN22,
+                }
+                .ix();
+                let o = self.step(w, ix, monitors, acc);
+                if o.ok() {
+                    w.positions[i].owner = to;
+                    w.positions[i].token_account = dest;
+                }
+            }
+            6 | 7 if !live.is_empty() => {
+                // reset the range (only empty positions); sometimes the same range / an invalid one
+                let i = *rnd::pick(&mut w.r, &live);
+                let pi = w.positions[i].clone();
+                if matches!(pi.kind, PosKind::Bundled { .. }) && w.r.gen() {
+                    return;
+                }
+                let (mut lo, mut hi) = self.gen_range(w, p);
+                match w.r.gen_range(0..8) {
+                    0 => {
+                        lo = pi.lower;
+                        hi = pi.upper;
+                    }
+                    1 => hi = lo,
+                    2 => lo += 1,
+                    _ => {}
+                }
+                if w.r.gen() {
+                    // empty it first so that the reset has a chance
+                    let pos = codec::Position::decode(w.bank.data(&pi.position).unwrap_or(&[])).unwrap_or_default();
+                    if pos.liquidity > 0 {
+                        let ix = w.modify_v2(i).decrease_liquidity_v2(pos.liquidity, 0, 0, None);
+                        self.step(w, ix, monitors, acc);
+                    }
+                    let ix = w.collect_fees_ix(i, true);
+                    self.step(w, ix, monitors, acc);
+                }
+                let ix = b::ResetPositionRange { funder: ADMIN, position_authority: w.users[pi.owner].key, whirlpool: pool.key, position: pi.position, position_token_account: pi.token_account, system_program: system_program::ID }.ix(lo, hi);
+                let o = self.step(w, ix, monitors, acc);
+                if o.ok() {
+                    w.positions[i].lower = lo;
+                    w.positions[i].upper = hi;
+                }
+            }
+            8 | 9 if !live.is_empty() => {
+                // reposition
+                let i = *rnd::pick(&mut w.r, &live);
+                let pi = w.positions[i].clone();
+                let (mut nl, mut nu) = self.gen_range(w, p);
+                match w.r.gen_range(0..10) {
+                    0 => {
+                        nl = pi.lower;
+                        nu = pi.upper;
+                    }
+                    1 => nu = nl,
+                    _ => {}
+                }
+                let (tl, tu) = w.pos_arrays(&pi);
+                let d1: bool = w.r.gen();
+                let d2: bool = w.r.gen();
+                let ntl = if nl >= MIN_TICK_INDEX && nl <= MAX_TICK_INDEX { w.ensure_tick_array(p, nl, d1) } else { tl };
+                let ntu = if nu >= MIN_TICK_INDEX && nu <= MAX_TICK_INDEX { w.ensure_tick_array(p, nu, d2) } else { tu };
+                let l = self.gen_liquidity(w, p);
+                let ix = b::RepositionLiquidityV2 {
+                    whirlpool: pool.key,
+                    token_program_a: pool.program_a,
+                    token_program_b: pool.program_b,
+                    memo_program: MEMO,
+                    position_authority: w.users[pi.owner].key,
+                    funder: ADMIN,
+                    position: pi.position,
+                    position_token_account: pi.token_account,
+                    token_mint_a: pool.mint_a,
+                    token_mint_b: pool.mint_b,
+                    token_owner_account_a: w.user_token(pi.owner, pool.mint_a),
+                    token_owner_account_b: w.user_token(pi.owner, pool.mint_b),
+                    token_vault_a: pool.vault_a,
+                    token_vault_b: pool.vault_b,
+                    existing_tick_array_lower: tl,
+                    existing_tick_array_upper: tu,
+                    new_tick_array_lower: ntl,
+                    new_tick_array_upper: ntu,
+                    system_program: system_program::ID,
+                }
+                .ix(nl, nu, b::RepositionLiquidityMethod::ByLiquidity { new_liquidity_amount: l, existing_range_token_min_a: 0, existing_range_token_min_b: 0, new_range_token_max_a: u64::MAX, new_range_token_max_b: u64::MAX }, None);
+                let o = self.step(w, ix, monitors, acc);
+                if o.ok() {
+                    w.positions[i].lower = nl;
+                    w.positions[i].upper = nu;
+                }
+            }
+            10 => {
+                // new bundle
+                let u = w.r.gen_range(0..w.users.len());
+                let ownerk = w.users[u].key;
+                let mint = w.new_key();
+                let ta = b::pda_associated_token(ownerk, mint, TOKEN).0;
+                let ix = if w.r.gen() {
+                    b::InitializePositionBundle { position_bundle: b::pda_position_bundle(mint).0, position_bundle_mint: mint, position_bundle_token_account: ta, position_bundle_owner: ownerk, funder: ADMIN, token_program: TOKEN, system_program: system_program::ID, rent: RENT_ID, associated_token_program: ATA }.ix()
+                } else {
+                    b::InitializePositionBundleWithMetadata {
+                        position_bundle: b::pda_position_bundle(mint).0,
+                        position_bundle_mint: mint,
+                        position_bundle_metadata: b::pda_metadata(mint).0,
+                        position_bundle_token_account: ta,
+                        position_bundle_owner: ownerk,
+                        funder: ADMIN,
+                        metadata_update_auth: b::NFT_UPDATE_AUTH,
+                        token_program: TOKEN,
+                        system_program: system_program::ID,
+                        rent: RENT_ID,
+                        associated_token_program: ATA,
+                        metadata_program: b::METADATA_PROGRAM_ID,
+                    }
+                    .ix()
+                };
+                let o = self.step(w, ix, monitors, acc);
+                if o.ok() {
+                    self.bundles.push((mint, ta, u));
+                }
+            }
+            11 | 12 if !self.bundles.is_empty() => {
+                // open a bundled position at any of the 256 indexes (and beyond)
+                let (mint, ta, u) = *rnd::pick(&mut w.r, &self.bundles);
+                let idx: u16 = match w.r.gen_range(0..8) {
+                    0 => 0,
+                    1 => 255,
+                    2 => 256,
+                    3 => w.r.gen_range(0..8),
+                    _ => w.r.gen_range(0..256),
+                };
+                let (lo, hi) = self.gen_range(w, p);
+                let bp = b::pda_bundled_position_u16(mint, idx).0;
+                let ix = b::OpenBundledPosition { bundled_position: bp, position_bundle: b::pda_position_bundle(mint).0, position_bundle_token_account: ta, position_bundle_authority: w.users[u].key, whirlpool: pool.key, funder: ADMIN, system_program: system_program::ID, rent: RENT_ID }.ix(idx, lo, hi);
+                let o = self.step(w, ix, monitors, acc);
+                if o.ok() {
+                    w.positions.push(PosInfo { pool: p, position: bp, mint, owner: u, token_account: ta, kind: PosKind::Bundled { bundle_mint: mint, index: idx }, lower: lo, upper: hi, closed: false, locked: false });
+                    if w.r.gen() {
+                        let i = w.positions.len() - 1;
+                        let d1: bool = w.r.gen();
+                        w.ensure_tick_array(p, lo, d1);
+                        w.ensure_tick_array(p, hi, !d1);
+                        let l = self.gen_liquidity(w, p);
+                        self.increase(w, i, l, monitors, acc);
+                    }
+                }
+            }
+            13 if !self.bundles.is_empty() => {
+                // delete a bundle (only allowed when no bundled position is open)
+                let k = w.r.gen_range(0..self.bundles.len());
+                let (mint, ta, u) = self.bundles[k];
+                let ownerk = w.users[u].key;
+                let ix = b::DeletePositionBundle { position_bundle: b::pda_position_bundle(mint).0, position_bundle_mint: mint, position_bundle_token_account: ta, position_bundle_owner: ownerk, receiver: ownerk, token_program: TOKEN }.ix();
+                let o = self.step(w, ix, monitors, acc);
+                if o.ok() {
+                    self.bundles.remove(k);
+                }
+            }
+            _ if !live.is_empty() => {
+                // operations that stay allowed on locked positions: add liquidity, collect
+                let locked: Vec<usize> = live.iter().copied().filter(|i| w.positions[*i].locked).collect();
+                let i = if !locked.is_empty() { *rnd::pick(&mut w.r, &locked) } else { *rnd::pick(&mut w.r, &live) };
+                match w.r.gen_range(0..4) {
+                    0 => {
+                        self.increase(w, i, 1000, monitors, acc);
+                    }
+                    1 => {
+                        let ix = w.collect_fees_ix(i, true);
+                        self.step(w, ix, monitors, acc);
+                    }
+                    2 => {
+                        let pos = codec::Position::decode(w.bank.data(&w.positions[i].position).unwrap_or(&[])).unwrap_or_default();
+                        let ix = w.modify_v2(i).decrease_liquidity_v2(pos.liquidity.max(1), 0, 0, None);
+                        self.step(w, ix, monitors, acc);
+                    }
+                    _ => {
+                        let ix = w.close_position_ix(i);
+                        let o = self.step(w, ix, monitors, acc);
+                        if o.ok() {
+                            w.positions[i].closed = true;
+                        }
+                    }
+                }
+            }
+            _ => {}
         }
     }
 
